@@ -64,7 +64,7 @@ func genDagCase(c *simrt.Choices, maxN int) *dagCase {
 		n = 1 + n%maxN
 	}
 	cs.N = n
-	shapes := []string{"random", "chain", "outtree", "intree", "layers", "diamond", "independent"}
+	shapes := []string{"random", "chain", "outtree", "intree", "layers", "diamond", "independent", "vees"}
 	cs.Shape = shapes[c.Choose(len(shapes), "shape")]
 	add := func(dep, dependant int) { cs.Edges = append(cs.Edges, [2]int{dep, dependant}) }
 	switch cs.Shape {
@@ -118,6 +118,13 @@ func genDagCase(c *simrt.Choices, maxN int) *dagCase {
 			}
 		}
 	case "independent":
+	case "vees":
+		// triples (a_i, b_i) -> c_i: with a_i failing and b_i succeeding later, c_i sits between a
+		// cancellation and a completion of its two dependencies
+		for i := 0; i+2 < n; i += 3 {
+			add(i, i+2)
+			add(i+1, i+2)
+		}
 	}
 	// cap the number of downstream paths (graph.GetDescendants is path-exponential, C19;
 	// the simulation must not trip over it)
@@ -175,6 +182,16 @@ func genDagCase(c *simrt.Choices, maxN int) *dagCase {
 	cs.LatMS = make([]int, n)
 	for i := range cs.LatMS {
 		cs.LatMS[i] = lats[lc][c.Choose(len(lats[lc]), "lat")]
+	}
+	if cs.Shape == "vees" {
+		cs.Fail = nil
+		for i := 0; i+2 < n; i += 3 {
+			if c.Choose(2, "vee-fails") == 1 {
+				cs.Fail = append(cs.Fail, i)
+				cs.LatMS[i] = 0
+				cs.LatMS[i+1] = []int{0, 1, 5}[c.Choose(3, "vee-lat")]
+			}
+		}
 	}
 	if c.Choose(12, "ext-cancel") == 0 {
 		cs.CancelMS = c.Choose(50, "cancel-ms")
